@@ -3,7 +3,7 @@ import os, subprocess
 META = dict(
     engine='seqx',
     technique='exhaustive enumeration of event sequences x buffer-boundary placements: each case is written with the real profiling.c writer API into a fresh binary trace and read back with the real dbpreader.c; field-by-field comparison with a reference list of the events written',
-    level_text='Every event sequence of length <= 5 (quick) / <= 7 (thorough) over {key A, key B} x {begin, end} x {stream 0, stream 1} is traced, once into empty buffers and once for every (event i, d in {-1,0,+1}) with the stream pre-filled so that event i ends d bytes around the end of its buffer; plus uniform runs filling exactly k = 1..4 buffers -1/0/+1 event (by count and to the byte), dictionaries of 4..52 entries with 4 convertor lengths, and global-info values ending around 1..3 buffer ends. Each trace is read back through dbp_reader_open_files / iterators and compared per stream, in order: key, flags, event_id, taskpool_id, timestamp (against a deterministic clock), payload length and bytes; dictionary names / info lengths / convertors / colours, global and per-stream infos, stream names, rank and trace id.',
+    level_text='Every sequence of 5 (quick) / 7 (thorough) events over {key A, key B} x {begin, end} x {stream 0, stream 1} is traced as a window of a de Bruijn stream (4-10 configurations of info lengths {0,4,24,+odd} x payload policy x API variant, many buffer alignments); every sequence of length <= 2 (quick) / <= 3 (thorough) is traced from a fresh trace, once into empty buffers and once for every (event i, d in {-1,0,+1}) with the stream pre-filled so that event i ends d bytes around the end of its buffer; plus uniform runs filling exactly k = 1..2 (quick) / 1..4 (thorough) buffers -1/0/+1 event (by count and to the byte), dictionaries of 4..52 entries x convertor lengths (all lengths 0..255 in thorough), and global-info values ending around 1..3 buffer ends. Each trace is written with the real profiling.c and read back through the real dbpreader.c (dbp_reader_open_files / iterators) and compared per stream, in order: key, flags, event_id, taskpool_id, timestamp (against a deterministic clock), payload length and bytes; dictionary names / info lengths / convertors / colours, global and per-stream infos, stream names, rank and trace id.',
     level_note='Single writer thread (streams are per-thread objects by contract), one trace file per case (single process rank 0..4 read alone); info lengths {0,4,24} (+1 for filler events), buffer size 1 page (thorough: also 2 pages); user flags are a fixed function of the event position, not enumerated independently. profiling.c is compiled into the harness by #include so that its file-scope state can be reset between cases (the API cannot restart a trace in one process) and its clock replaced by a tick counter; a fork-per-case leg cross-checks the reset.',
 )
 RULE = ("one execution = one trace written through the writer API and read back through the reader API; states/distinct outcomes = distinct file layouts "
@@ -20,9 +20,9 @@ def check(ctx):
     exe = build(ctx)
     jobs = str(min(16, os.cpu_count() or 4))
     if ctx.tier == 'quick':
-        ctx.run_engine(exe, ['--outdir', '/verif/out', '--jobs', jobs, '--maxlen', '5', '--deadline', '70'], label='prof', timeout=300)
+        ctx.run_engine(exe, ['--outdir', '/verif/out', '--jobs', jobs, '--maxlen', '5', '--deadline', '55'], label='prof', timeout=300)
     else:
-        ctx.run_engine(exe, ['--outdir', '/verif/out', '--jobs', jobs, '--maxlen', '7', '--thorough', '--deadline', '1080'], label='prof', timeout=1500)
+        ctx.run_engine(exe, ['--outdir', '/verif/out', '--jobs', jobs, '--maxlen', '7', '--thorough', '--deadline', '1000'], label='prof', timeout=1500)
     return ctx.finish(RULE, ["events of one stream are traced by one thread at a time (documented contract of parsec_profiling_stream_t)",
                              "the trace is complete: parsec_profiling_dbp_dump / fini returned before the file is read"])
 
